@@ -74,6 +74,9 @@ package capnp
 //@   assert before "d.buf = resizeSlice(d.buf, int(total))" [C14] capreuse: M(len(hdr.b))+M(total) <= M(maxSize) && M(total) <= M(maxInt)
 //@   -- the header handed to totalSize/demuxArena is complete
 //@   assert before "total, err := hdr.totalSize()" [C14] hdrcomplete: hdrOK(hdr)
+//@   -- ... and is exactly the header of this frame: a longer buffer (left over from an earlier frame
+//@   -- with more segments) would swallow the beginning of the segment data
+//@   assert before "total, err := hdr.totalSize()" [C14] hdrexact: M(len(hdr.b)) == hdrBytes(M(maxSeg))
 
 //@ func Unmarshal -> msg, err
 //@   props C14 C01
